@@ -136,6 +136,7 @@ type Op struct {
 	Pl       int        `json:"pl,omitempty"`
 	It       int        `json:"it,omitempty"`
 	R        int        `json:"r,omitempty"`
+	R2       int        `json:"r2,omitempty"`
 	Bm       int        `json:"bm,omitempty"`
 	Prealloc int        `json:"prealloc,omitempty"`
 	Freq     bool       `json:"freq,omitempty"`
@@ -209,6 +210,7 @@ type segH struct {
 }
 
 type Env struct {
+	statObjs       map[int]segment.CollectionStats
 	tr             *Trace
 	sc             *Scenario
 	norm           func(string, int) float32
@@ -393,7 +395,7 @@ func (e *Env) missing(op *Op) bool {
 	segMu.RLock()
 	defer segMu.RUnlock()
 	needSeg := map[string]bool{"persist": true, "persist_fail": true, "dit_open": true, "close_file": true, "fail_after": true, "fields": true, "dict": true, "contains": true, "dict_close": true,
-		"pl_open": true, "stored": true, "dv_open": true, "match": true, "stats": true, "stats_merge": true,
+		"pl_open": true, "stored": true, "dv_open": true, "match": true, "stats": true, "stats_merge": true, "stats_get": true,
 		"observe": true, "layout": false}
 	if needSeg[op.Op] && e.segs[op.Seg] == nil {
 		return true
@@ -509,6 +511,8 @@ func (e *Env) Do(op *Op) {
 		e.doStats(op)
 	case "stats_merge":
 		e.doStatsMerge(op)
+	case "stats_get", "stats_add", "stats_read":
+		e.doStatsObj(op)
 	case "digest":
 		e.doDigest(op)
 	case "observe":
@@ -1293,6 +1297,52 @@ func (e *Env) doStats(op *Op) {
 		res["stats"] = statsEv(cs)
 	}
 	e.emit(M{"ev": "stats", "seg": op.Seg, "field": op.Field, "res": res})
+}
+
+// statistics objects that live across calls: stats_get keeps the object CollectionStats returned under handle R,
+// stats_add merges R2 into R (CollectionStats.Merge mutates its receiver), stats_read reads an object back
+func (e *Env) doStatsObj(op *Op) {
+	if e.statObjs == nil {
+		e.statObjs = map[int]segment.CollectionStats{}
+	}
+	switch op.Op {
+	case "stats_get":
+		h := e.seg(op.Seg)
+		var cs segment.CollectionStats
+		var err error
+		class := e.call(func() { cs, err = h.seg.CollectionStats(op.Field) })
+		res := resKind(class, err)
+		if res["kind"] == "ok" {
+			e.statObjs[op.R] = cs
+			res["stats"] = statsEv(cs)
+		}
+		e.emit(M{"ev": "stats_get", "seg": op.Seg, "field": op.Field, "r": 600000 + op.R, "res": res})
+	case "stats_add":
+		a, b := e.statObjs[op.R], e.statObjs[op.R2]
+		if a == nil || b == nil {
+			e.emit(M{"ev": "skip", "op": op.Op})
+			return
+		}
+		class := e.call(func() { a.Merge(b) })
+		res := resKind(class, nil)
+		if res["kind"] == "ok" {
+			res["stats"] = statsEv(a)
+		}
+		e.emit(M{"ev": "stats_add", "r": 600000 + op.R, "r2": 600000 + op.R2, "res": res})
+	case "stats_read":
+		a := e.statObjs[op.R]
+		if a == nil {
+			e.emit(M{"ev": "skip", "op": op.Op})
+			return
+		}
+		var ev M
+		class := e.call(func() { ev = statsEv(a) })
+		res := resKind(class, nil)
+		if res["kind"] == "ok" {
+			res["stats"] = ev
+		}
+		e.emit(M{"ev": "stats_read", "r": 600000 + op.R, "res": res})
+	}
 }
 
 func (e *Env) doStatsMerge(op *Op) {
